@@ -29,7 +29,7 @@ static V gen_scalar(char t) {
     case 'r': v.i = (int32_t)vf::oneof<uint32_t>({0u, 1u, 0x7fffffffu, 0x80000000u, 0xff0000ffu}); break;
     case 'm': v.i = (int32_t)vf::oneof<uint32_t>({0u, 0x00000001u, 0x01000000u, 0x90407f00u, 0xff000000u}); break;
     case 't': v.i = (int64_t)vf::oneof<uint64_t>({1ull, 0ull, 2ull, 0x100000000ull, 0x8000000000000000ull, ~0ull}); break;
-    case 'f': case 'd': v.d = vf::chance(80) ? vf::oneof<double>({0.0, -0.0, 0.25, 0.5, 1.0, 1.5, 2.0, -1.0, -0.25, 1e10, -1e10, 3.0}) : (double)(float)(vf::pick<int>(-3, 6) / 10.0f); break;   // also tenths (0.1f, 0.2f: not exact)
+    case 'f': case 'd': v.d = vf::chance(80) ? vf::oneof<double>({0.0, -0.0, 0.25, 0.5, 1.0, 1.5, 2.0, -1.0, -0.25, 1e10, -1e10, 3.0, (double)INFINITY, -(double)INFINITY, (double)INFINITY}) : (double)(float)(vf::pick<int>(-3, 6) / 10.0f); break;   // also tenths (0.1f, 0.2f: not exact) and the infinities (inf - inf is NaN: seed C16-11)
     case 's': case 'S': v.s = vf::oneof<std::string>({"", "a", "ab", "abc", "b", "abd", "A", "a b"}); break;
     case 'b': v.s = vf::oneof<std::string>({"", std::string("\0", 1), "a", std::string("a\0", 2), "ab", std::string("ab\0\0", 4), "b", "\xff", std::string("\xff\0", 2)}); break;
     default: break;
